@@ -20,11 +20,11 @@
    (NumRender: beyond-range numerals become Infinity / -Infinity / 0 / -0; numerals with at most 15 significant digits
    in the normal range are rendered by Number::toString from their digits; a table supplies the few long numerals used).
    PStep is an independent second formulation: the character-level pushdown automaton of the ECMA-404 railroad
-   diagrams.  The state is the text built so far by appending pieces (lexemes and phrases, constant PieceIds); each
+   diagrams.  The state is the text built so far by appending pieces (lexemes and phrases, PieceText); each
    Append edge carries the specified outcome of JSON.parse on the new text: SyntaxError, or the canonical rendering of
    the value plus the text JSON.stringify must produce for it.  Edit edges (self loops) carry the outcome for every
-   single-character deletion / replacement / insertion of the current text.  A text the automaton has already
-   rejected is not extended further (every extension is rejected as well).
+   single-character deletion / replacement / insertion of the current text.  A text on which the automaton is dead
+   (no continuation can be accepted) is only probed by a self loop, never extended.
    TLC checks: both formulations agree on every text and every corruption (Agree), the canonical form is a fixed point
    and JSON-representable values round-trip (RoundTrip), parsed objects have unique keys in own-key order (WellFormedInv).
 
@@ -42,27 +42,22 @@
    than the identity (checked by the adaptor), inherited properties named by an allow-list, user-defined valueOf /
    toString on boxed primitives, getters.
 
-   Bounds: set by the constants (pieces and MaxSteps / value kinds, keys and MaxNodes); see lib/checks/c19.py. *)
+   Bounds: the plans below (PlanOf): alphabet of pieces and number of appended pieces / value kinds, keys, node bound and the
+   replacer and space menus; constant Plans selects the plans of a run, Big the thorough bounds.  The first step of every
+   behaviour chooses the plan. *)
 EXTENDS Integers, Sequences, FiniteSets, TLC, Json
 
-CONSTANTS Mode,        \* "parse" | "str"
-          PieceIds,    \* parse: names of the pieces that may be appended
-          MaxSteps,    \* parse: number of appended pieces; str: unused
-          EditChars,   \* parse: code units used by replacement / insertion corruptions
-          EditOn,      \* parse: "none" | "accepted" (corrupt accepted texts) | "all" (corrupt every text)
-          Kinds,       \* str: value kinds that may be added
-          KeyIds,      \* str: keys that object members may get
-          MaxNodes,    \* str: bound on the number of nodes of the value
-          Reps,        \* str: replacer menu entries used
-          Inds         \* str: space-argument menu entries used
+CONSTANTS Plans,       \* names of the plans (bounded configurations, see PlanOf below) explored in this run
+          Big          \* FALSE: quick bounds, TRUE: thorough bounds
 
-VARIABLES text,        \* parse: Seq(code unit)
+VARIABLES plan,        \* "none" or the plan chosen by the first step
+          text,        \* parse: Seq(code unit)
           shown,       \* parse: ShowStr(text), kept incrementally (output only)
           cfg,         \* parse: configuration of the pushdown automaton after reading text
           val,         \* parse: [t |-> "reject"] or the value ParseText assigns to text;  str: the value under construction
           n,           \* number of steps taken
           act          \* last action with its specified result (output only, hidden by VIEW)
-vars == <<text, shown, cfg, val, n, act>>
+vars == <<plan, text, shown, cfg, val, n, act>>
 
 \* ---------------------------------------------------------------------------------------------------------------
 \* Code units and their rendering
@@ -614,18 +609,90 @@ PieceText(id) ==
     [] id = "wsrich" -> WsAll \o <<123>> \o WsAll \o Q(W(<<"a">>)) \o WsAll \o <<58>> \o WsAll \o <<91>> \o WsAll \o <<49>> \o WsAll \o <<44>> \o WsAll
                         \o TrueT \o WsAll \o <<93>> \o WsAll \o <<44>> \o WsAll \o Q(W(<<"b">>)) \o WsAll \o <<58>> \o WsAll \o <<123>> \o WsAll \o <<125>> \o WsAll \o <<125>> \o WsAll
 
+\* ---------------------------------------------------------------------------------------------------------------
+\* Plans: the bounded configurations.  A plan fixes the part ("parse" / "str") and its alphabet and bounds.
+NumPieces == {"n0", "n1", "nm0", "n15", "n10", "n010", "nE2", "ne400", "nme400", "nem400", "nmem400", "ne21", "nem7", "n000001", "n1e20", "n1e21",
+              "nehuge", "n0ehuge", "nemhuge", "nlong30", "nlongfrac", "n2p53", "nmin", "nmin3", "nmin2", "nmax", "nmax9", "n15dig", "n0lead"}
+BadNumPieces == {"b01", "b1dot", "bdot5", "bminus", "b1e", "b1eplus", "bplus1", "bhex", "b1dote", "bmm1", "bsep", "binf", "bnan", "bninf", "bfullw", "bm01", "b1n"}
+StrPieces == {"sA", "sE", "s1", "sproto", "su41", "sesc", "suni", "sraw", "snul", "sspace", "sufff"}
+BadStrPieces == {"bctl", "btab", "blf", "bx41", "bu12", "bu12g4", "bescq", "bsq", "bopen", "bescend", "bescv", "besc0", "bescU", "bdel"}
+LitPieces == {"true", "false", "null", "bnul", "bTrue", "bnulll", "bundef", "bcomment", "blinec", "bparen", "bsemi", "bident"}
+WsPieces == {"sp", "ws3", "nbsp", "bom", "vt", "ff", "ls", "idsp"}
+MemberPieces == {"mb1", "m12", "ma3", "ma4", "mp5", "m106", "m97", "me8", "mmax", "mmax1", "m01", "mneg0", "mpobj", "mu61"}
+EditUnits == {34, 92, 44, 58, 93, 125, 48, 101, 46, 45, 32, 160, 1, 117, 9}       \* " \ , : ] } 0 e . - space NBSP U+0001 u TAB
+LeafKinds == {"null", "true", "false", "n1", "n15", "nneg0", "nan", "inf", "ninf", "n1e21", "n1e-7", "nbig", "sa", "sempty", "sq", "sctl", "suni",
+              "slone", "slone2", "undef", "fun", "sym", "big", "bnum", "bnan", "bstr", "bfalse", "bsym", "bbig", "tjkey", "tjnest", "tjundef",
+              "tjnon", "tjfun", "big7", "args", "typed", "date0", "datenan", "cyc", "shared", "hole"}
+ContKinds == {"obj", "arr", "pxobj", "pxarr"}
+AllReps == {"none", "nonfn", "dropa", "num", "idx0", "wrap", "allow_ba", "allow_mixed", "allow_nums", "allow_empty", "allow_h", "allow_px"}
+AllInds == {"none", "n2", "n11", "n0", "nneg", "n2_9", "ninf", "nan", "bnum3", "tab", "s16", "sempty", "bstr", "uni11", "uni1", "btrue"}
+ParsePlan(pieces, maxsteps, editchars, editon) ==
+  [mode |-> "parse", pieces |-> pieces, maxsteps |-> maxsteps, editchars |-> editchars, editon |-> editon,
+   kinds |-> {}, keys |-> {}, maxnodes |-> 0, reps |-> {}, inds |-> {}]
+StrPlan(kinds, keys, maxnodes, reps, inds) ==
+  [mode |-> "str", pieces |-> {}, maxsteps |-> 0, editchars |-> {}, editon |-> "none",
+   kinds |-> kinds, keys |-> keys, maxnodes |-> maxnodes, reps |-> reps, inds |-> inds]
+NoPlan == [mode |-> "none", pieces |-> {}, maxsteps |-> 0, editchars |-> {}, editon |-> "none", kinds |-> {}, keys |-> {}, maxnodes |-> 0, reps |-> {}, inds |-> {}]
+\* every string over the structural tokens, one representative of each value class and a blank; corruptions of the accepted ones
+PlanStruct == ParsePlan({"lb", "rb", "lc", "rc", "cm", "cl", "sA", "n1", "true", "sp"}, IF Big THEN 7 ELSE 5, {44, 34, 93}, "accepted")
+\* every lexeme representative (valid and malformed numbers, strings, literals, blanks) in every short context
+PlanLex == ParsePlan({"lb", "rb", "cm"} \cup NumPieces \cup BadNumPieces \cup StrPieces \cup BadStrPieces \cup LitPieces \cup WsPieces, IF Big THEN 4 ELSE 3, {}, "none")
+\* objects: duplicate keys, "__proto__", index and non-index keys in every order
+PlanMembers == ParsePlan({"lc", "rc", "cm", "sp"} \cup (IF Big THEN MemberPieces ELSE MemberPieces \ {"mu61", "mneg0", "m01", "me8"}), IF Big THEN 8 ELSE 6, {}, "none")
+\* nesting of arrays and objects up to 8 (thorough 12) levels
+PlanDeep == ParsePlan({"open4", "close4", "oopen", "oclose", "n1", "cm", "lb", "rb", "lc", "rc", "maobj", "maarr", "sA", "cl"}, IF Big THEN 6 ELSE 5, {}, "none")
+\* single-character corruptions of texts with every white space placement, every escape form, exponent forms
+PlanEdits == ParsePlan({"wsrich", "sesc", "suni", "nmem400", "nE2", "n15", "mpobj", "lc", "rc", "lb", "rb", "cm", "true"}, 3, EditUnits, "accepted")
+\* corruptions of every lexeme, accepted or not
+PlanEditLex == ParsePlan({"lb", "rb", "true", "false", "null", "ws3"} \cup NumPieces \cup StrPieces, 2, EditUnits, "all")
+\* shapes: key orders, nesting, empty containers, holes, undefined members x replacer kinds x indentation
+PlanShape == StrPlan({"obj", "arr", "n1", "undef", "hole"}, {"a", "b", "1"}, IF Big THEN 5 ELSE 4, {"none", "allow_ba", "dropa"}, {"none", "n2", "tab"})
+\* every kind of value at top level, as array element and as object member (thorough: pairs) x every replacer
+PlanLeaves == StrPlan(LeafKinds \cup ContKinds, {"a"}, IF Big THEN 3 ELSE 2, IF Big THEN {"none", "num", "wrap", "allow_ba", "dropa"} ELSE AllReps, {"none", "n2"})
+\* every form of the space argument
+PlanIndent == StrPlan({"obj", "arr", "n1", "sa"}, {"a", "q"}, 4, {"none"}, AllInds)
+\* forwarding proxies as values and as allow-list, cyclic references
+PlanProxy == StrPlan({"pxobj", "pxarr", "n1", "undef", "hole", "cyc"}, {"a", "1", "b"}, IF Big THEN 4 ELSE 3, {"none", "allow_ba", "wrap"}, {"none", "n2"})
+\* own-key order (array indices first), "__proto__", non-enumerable and escaped keys x allow-lists
+PlanKeys == StrPlan({"obj", "n1"}, {"a", "b", "1", "10", "__proto__", "h"} \cup (IF Big THEN {"0", "9", "q", "empty"} ELSE {}), 4,
+                    {"none", "allow_ba", "allow_h", "allow_mixed", "allow_nums"}, {"none", "n2"})
+PlanOf(nm) == CASE nm = "struct" -> PlanStruct [] nm = "lex" -> PlanLex [] nm = "members" -> PlanMembers [] nm = "deep" -> PlanDeep
+                [] nm = "edits" -> PlanEdits [] nm = "editlex" -> PlanEditLex
+                [] nm = "shape" -> PlanShape [] nm = "leaves" -> PlanLeaves [] nm = "indent" -> PlanIndent [] nm = "proxy" -> PlanProxy
+                [] nm = "keys" -> PlanKeys [] nm = "none" -> NoPlan
+PL == PlanOf(plan)
+ModeOf(nm) == PlanOf(nm).mode
+Mode == PL.mode
+PieceIds == PL.pieces
+MaxSteps == PL.maxsteps
+EditChars == PL.editchars
+EditOn == PL.editon
+Kinds == PL.kinds
+KeyIds == PL.keys
+MaxNodes == PL.maxnodes
+Reps == PL.reps
+Inds == PL.inds
+
 \* the specified outcome of JSON.parse(t) together with JSON.stringify(JSON.parse(t))
 Outcome(r) == IF r.ok THEN [v |-> Render(r.v), canon |-> ShowStr(Canon(r.v))] ELSE [v |-> "SyntaxError", canon |-> "-"]
 Reject == [t |-> "reject"]
+\* Appending a piece.  When the automaton rejects the longer text for good (no continuation can be accepted) the text is not
+\* kept: the edge is a self loop ("try") that still carries the outcome for the longer text.
 Append1(id) ==
-  /\ Mode = "parse" /\ n < MaxSteps /\ cfg.ph # "X"
+  /\ Mode = "parse" /\ n < MaxSteps
   /\ LET p == PieceText(id)
          t2 == text \o p
+         c2 == PRun(cfg, p, 1)
          r == ParseText(t2) IN
      /\ r.d
-     /\ text' = t2 /\ shown' = shown \o ShowStr(p) /\ cfg' = PRun(cfg, p, 1) /\ n' = n + 1
-     /\ val' = IF r.ok THEN r.v ELSE Reject
-     /\ act' = [op |-> "app", p |-> ShowStr(p), res |-> Outcome(r)]
+     /\ IF c2.ph = "X"
+        THEN /\ Assert(~r.ok, <<"the automaton is dead but the grammar accepts", ShowStr(t2)>>)
+             /\ act' = [op |-> "try", p |-> ShowStr(p), res |-> Outcome(r)]
+             /\ UNCHANGED <<plan, text, shown, cfg, val, n>>
+        ELSE /\ UNCHANGED plan
+             /\ text' = t2 /\ shown' = shown \o ShowStr(p) /\ cfg' = c2 /\ n' = n + 1
+             /\ val' = IF r.ok THEN r.v ELSE Reject
+             /\ act' = [op |-> "app", p |-> ShowStr(p), res |-> Outcome(r)]
 \* single-character corruptions of the current text (self loops)
 Edited(kind, i, c) == CASE kind = "del" -> SubSeq(text, 1, i - 1) \o SubSeq(text, i + 1, Len(text))
                         [] kind = "rep" -> SubSeq(text, 1, i - 1) \o <<c>> \o SubSeq(text, i + 1, Len(text))
@@ -639,7 +706,7 @@ Edit(kind, i, c) ==
      /\ r.d
      /\ Assert(r.ok = Accepts(t2), <<"grammar and automaton disagree on", ShowStr(t2)>>)
      /\ act' = [op |-> "edit", k |-> kind, i |-> i, c |-> IF kind = "del" THEN "-" ELSE Show(c), res |-> Outcome(r)]
-  /\ UNCHANGED <<text, shown, cfg, val, n>>
+  /\ UNCHANGED <<plan, text, shown, cfg, val, n>>
 
 \* ---------------------------------------------------------------------------------------------------------------
 \* Part 2: building a value, stringifying it
@@ -667,7 +734,7 @@ SetRoot(kd) ==
   /\ Mode = "str" /\ val = None /\ kd \notin {"hole", "cyc"}
   /\ val' = Node(kd) /\ n' = n + 1
   /\ act' = [op |-> "root", kind |-> kd, res |-> "ok"]
-  /\ UNCHANGED <<text, shown, cfg>>
+  /\ UNCHANGED <<plan, text, shown, cfg>>
 Add(p, kid, kd) ==
   /\ Mode = "str" /\ val # None /\ Size(val) < MaxNodes
   /\ LET c == Cont(NodeAt(val, p)) IN
@@ -676,7 +743,7 @@ Add(p, kid, kd) ==
      /\ act' = [op |-> "add", path |-> p, k |-> IF kid = "-" THEN "-" ELSE ShowStr(KeyText(kid)), a |-> IF kid = "-" THEN "e" ELSE KeyAttr(kid),
                 kind |-> kd, res |-> "ok"]
   /\ n' = n + 1
-  /\ UNCHANGED <<text, shown, cfg>>
+  /\ UNCHANGED <<plan, text, shown, cfg>>
 \* JSON.stringify(val, replacer, space): the text, and the rendering of what JSON.parse returns for it
 \* (a gap that is not white space makes the text of a non-empty container unparsable; pb = "F": the text contains an
 \* escaped lone surrogate, parsing it back falls under the documented exception and is not compared)
@@ -690,17 +757,22 @@ Stringify(rid, iid) ==
   /\ Mode = "str" /\ val # None
   /\ LET o == StrOutcome(Ser(Replacer(rid), <<>>, val), Gap(iid)) IN
      act' = [op |-> "str", rep |-> rid, ind |-> iid, pb |-> o.pb, res |-> o.res]
-  /\ UNCHANGED <<text, shown, cfg, val, n>>
+  /\ UNCHANGED <<plan, text, shown, cfg, val, n>>
 \* Object.MarshalJSON: JSON.stringify(o) without replacer and space; "null" where stringify gives undefined
 Marshal ==
   /\ Mode = "str" /\ val # None /\ IsObjectValue(val)
   /\ act' = [op |-> "marshal", res |-> LET j == Ser(NoRep, <<>>, val) IN
                                         IF j.t = "undef" THEN "null" ELSE IF j.t = "TypeError" THEN "TypeError" ELSE ShowStr(Txt(j, <<>>, <<>>))]
-  /\ UNCHANGED <<text, shown, cfg, val, n>>
+  /\ UNCHANGED <<plan, text, shown, cfg, val, n>>
 
-Init == /\ text = <<>> /\ shown = "" /\ cfg = Cfg0 /\ n = 0 /\ act = [op |-> "init"]
-        /\ val = IF Mode = "parse" THEN Reject ELSE None
-Next == \/ \E id \in PieceIds : Append1(id)
+Init == /\ plan = "none" /\ text = <<>> /\ shown = "" /\ cfg = Cfg0 /\ n = 0 /\ act = [op |-> "init"] /\ val = None
+Choose(nm) ==
+  /\ plan = "none" /\ plan' = nm
+  /\ val' = IF ModeOf(nm) = "parse" THEN Reject ELSE None
+  /\ act' = [op |-> "plan", name |-> nm, mode |-> ModeOf(nm), res |-> "ok"]
+  /\ UNCHANGED <<text, shown, cfg, n>>
+Next == \/ \E nm \in Plans : Choose(nm)
+        \/ \E id \in PieceIds : Append1(id)
         \/ \E i \in 1..Len(text) : Edit("del", i, 0) \/ (\E c \in EditChars : Edit("rep", i, c))
         \/ \E i \in 1..(Len(text) + 1), c \in EditChars : Edit("ins", i, c)
         \/ \E kd \in Kinds : SetRoot(kd)
@@ -713,8 +785,8 @@ Spec == Init /\ [][Next]_vars
 \* Properties
 \* (1) the two formulations of the grammar agree on the text of every state (corruptions: Assert inside Edit)
 Agree == Mode = "parse" => ((val # Reject) = Accepting(cfg))
-\* (2) a text rejected by the automaton stays rejected; an accepted text followed by white space keeps its value
-DeadStays == [][(cfg.ph = "X") => (cfg'.ph = "X")]_vars
+\* (2) no state holds a text the automaton has given up on (such texts are only probed, see Append1)
+NeverDead == cfg.ph # "X"
 \* (3) parsed objects: unique keys, array indices first in ascending order
 RECURSIVE WellFormed(_)
 WellFormed(v) == IF v.t = "arr" THEN \A i \in DOMAIN v.e : WellFormed(v.e[i])
@@ -769,8 +841,10 @@ Shape(v) ==
     [] v.t = "arr" -> "[" \o JoinS([i \in DOMAIN v.e |-> Shape(v.e[i])], ",", 1) \o "]"
     [] v.t = "obj" -> LET o == KeyOrder(v.e) IN
                       "{" \o JoinS([i \in DOMAIN o |-> (IF o[i].a = "h" THEN "~" ELSE "") \o ShowQStr(o[i].k) \o ":" \o Shape(o[i].v)], ",", 1) \o "}"
-StOf(t, v, m) == IF Mode = "parse" THEN [text |-> t, n |-> m] ELSE [val |-> v, n |-> m]
-ObsOf(t, v, m) == IF Mode = "parse" THEN [text |-> t, n |-> m] ELSE [shape |-> Shape(v), n |-> m]
-Emit == PrintT(ToJson([f |-> StOf(shown, val, n), l |-> act', t |-> StOf(shown', val', n'), o |-> ObsOf(shown', val', n')]))
-View == <<text, val, n>>
+StOf(pl, t, v, m) == IF ModeOf(pl) = "parse" THEN [plan |-> pl, text |-> t, n |-> m]
+                     ELSE IF ModeOf(pl) = "str" THEN [plan |-> pl, val |-> v, n |-> m] ELSE [plan |-> pl, n |-> m]
+ObsOf(pl, t, v, m) == IF ModeOf(pl) = "parse" THEN [plan |-> pl, text |-> t, n |-> m]
+                      ELSE IF ModeOf(pl) = "str" THEN [plan |-> pl, shape |-> Shape(v), n |-> m] ELSE [plan |-> pl, n |-> m]
+Emit == PrintT(ToJson([f |-> StOf(plan, shown, val, n), l |-> act', t |-> StOf(plan', shown', val', n'), o |-> ObsOf(plan', shown', val', n')]))
+View == <<plan, text, val, n>>
 =============================================================================
